@@ -312,7 +312,7 @@ func applyModel(model []rec, names []string, a fixAction) ([]rec, []string) {
 
 var fixUps = ev.Register(&ev.P[fixCase]{
 	Name: "fixups_reflected_exactly",
-	Rule: "stateful: the table is reset (hook), then a generated sequence of Fix calls — add records for days not in the table (before the first record, between records, after the last), replace (other name index / work flag / target), remove (~), remove-absent, replace the name list — one segment per day within one call; after EVERY call all views (by day, month, year, target) are compared with the map model updated by the same segments, so added, replaced and removed records are reflected exactly and all others are unchanged; non-trivial: the sequence adds a record earlier than the table's last record, or removes/replaces a record whose target groups several days",
+	Rule: "stateful: the table is reset (hook), then a generated sequence of Fix calls — add records for days not in the table (before the first record, between records, after the last), replace (other name index / work flag / target), remove (~), remove-absent, replace the name list (also by a longer one, up to 14 names, whose indices from 10 on are written as the characters after '9') — one segment per day within one call; after EVERY call all views (by day, month, year, target) are compared with the map model updated by the same segments, so added, replaced and removed records are reflected exactly and all others are unchanged; non-trivial: the sequence adds a record earlier than the table's last record, or removes/replaces a record whose target groups several days",
 	Check: func(c fixCase) error {
 		HolidayUtil.VerifReset()
 		defer HolidayUtil.VerifReset()
@@ -342,6 +342,11 @@ var fixUps = ev.Register(&ev.P[fixCase]{
 		var ls []string
 		nt := false
 		for _, a := range c.Actions {
+			for _, sg := range a.Segs {
+				if a.Kind != "names" && len(sg) > 8 && sg[8] > '9' && sg[8] != '~' {
+					ls = append(ls, "nameIndex10plus")
+				}
+			}
 			ls = append(ls, "action:"+a.Kind)
 			for _, s := range a.Segs {
 				if a.Kind == "add" && s[:8] < lastShippedDay() {
@@ -354,7 +359,7 @@ var fixUps = ev.Register(&ev.P[fixCase]{
 		}
 		return ls, nt
 	},
-	Require: []string{"action:add", "action:replace", "action:remove", "action:removeAbsent", "action:names", "addOutOfOrder"},
+	Require: []string{"action:add", "action:replace", "action:remove", "action:removeAbsent", "action:names", "addOutOfOrder", "nameIndex10plus"},
 })
 
 // ------------------------------------------------------------------------------------------
@@ -538,6 +543,9 @@ func genFix(t *rapid.T) fixCase {
 		if kind == "names" {
 			// a permutation-free renaming: same length list with suffixed names
 			var ns []string
+			// the list may grow (never shrink below an index in use): indices from 10 on are written as the characters
+			// after '9' in a record
+			nNames = rapid.IntRange(nNames, 14).Draw(t, "nNames")
 			for k := 0; k < nNames; k++ {
 				ns = append(ns, fmt.Sprintf("N%d-%d", k, rapid.IntRange(0, 3).Draw(t, "nameVariant")))
 			}
@@ -595,7 +603,11 @@ func genFix(t *rapid.T) fixCase {
 				if rapid.Bool().Draw(t, "otherTarget") {
 					tgt = fmt.Sprintf("%04d%02d%02d", atoi(day[:4]), rapid.SampledFrom([]int{1, 5, 10}).Draw(t, "tm"), 1)
 				}
-				seg = fmt.Sprintf("%s%d%d%s", day, rapid.IntRange(0, nNames-1).Draw(t, "name"), rapid.IntRange(0, 1).Draw(t, "work"), tgt)
+				ni := rapid.IntRange(0, nNames-1).Draw(t, "name")
+				if nNames > 10 && rapid.Bool().Draw(t, "highName") {
+					ni = rapid.IntRange(10, nNames-1).Draw(t, "name10")
+				}
+				seg = fmt.Sprintf("%s%c%d%s", day, rune('0'+ni), rapid.IntRange(0, 1).Draw(t, "work"), tgt)
 			}
 			a.Segs = append(a.Segs, seg)
 		}
